@@ -35,8 +35,16 @@ impl<PN: PropertyName, VN: VariantName> Entry<PN, VN> {
         Ok(written)
     }
 
-    fn key_count(&self) -> Count<u8> {
-        (self.common.len() as u8 + self.variants.iter().map(|v| v.len() as u8).sum::<u8>()).into()
+    fn key_count(&self) -> IoResult<Count<u8>> {
+        // The count is stored in one byte: a layout with more property descriptors cannot be represented.
+        let count = self.common.len() + self.variants.iter().map(|v| v.len()).sum::<usize>();
+        match u8::try_from(count) {
+            Ok(count) => Ok(count.into()),
+            Err(_) => Err(std::io::Error::new(
+                std::io::ErrorKind::InvalidInput,
+                format!("Too many properties in the entry layout ({count}, maximum is 255)"),
+            )),
+        }
     }
 }
 
@@ -44,8 +52,14 @@ impl<PN: PropertyName, VN: VariantName> Serializable for Entry<PN, VN> {
     fn serialize(&self, ser: &mut Serializer) -> IoResult<usize> {
         let mut written = 0;
         written += ser.write_u16(self.entry_size)?;
-        written += ser.write_u8(self.variants.len() as u8)?;
-        written += self.key_count().serialize(ser)?;
+        let variant_count = u8::try_from(self.variants.len()).map_err(|_| {
+            std::io::Error::new(
+                std::io::ErrorKind::InvalidInput,
+                "Too many variants in the entry layout (maximum is 255)",
+            )
+        })?;
+        written += ser.write_u8(variant_count)?;
+        written += self.key_count()?.serialize(ser)?;
         written += self.common.serialize(ser)?;
         for variant in &self.variants {
             written += variant.serialize(ser)?;
